@@ -259,16 +259,16 @@ func (r *Runner) sketchCoherence(e *skEntry, count, sum float64, empty bool, mn 
 			r.oracleFail("foreach-duplicate", fmt.Sprintf("ForEach yielded value %v twice", fe[i].v))
 		}
 	}
-	if !math.IsInf(count, 0) && !math.IsNaN(count) && tot.Cmp(ratOf(count)) != 0 {
+	if (e.exact == nil || e.known) && !math.IsInf(count, 0) && !math.IsNaN(count) && tot.Cmp(ratOf(count)) != 0 {
 		r.oracleFail("count-vs-foreach", fmt.Sprintf("count %v but ForEach weights sum to %s", count, showRat(tot)))
 	}
-	if empty != (count == 0) {
+	if (e.exact == nil || e.known) && empty != (count == 0) {
 		r.oracleFail("empty-vs-count", fmt.Sprintf("IsEmpty=%v count=%v", empty, count))
 	}
-	if empty != (errMn != nil) || empty != (errMx != nil) {
+	if (e.exact == nil || e.known) && (empty != (errMn != nil) || empty != (errMx != nil)) {
 		r.oracleFail("extremes-vs-empty", fmt.Sprintf("IsEmpty=%v min err=%v max err=%v", empty, errMn, errMx))
 	}
-	if !empty && errMn == nil && errMx == nil && mn > mx {
+	if e.known && !empty && errMn == nil && errMx == nil && mn > mx {
 		r.oracleFail("min-gt-max", fmt.Sprintf("min %v > max %v", mn, mx))
 	}
 	if !e.known {
@@ -417,8 +417,8 @@ func (r *Runner) encChk(e *skEntry, omit bool) string {
 				dx, derr = ddsketch.DecodeDDSketchWithExactSummaryStatistics(plainBytes, providerOf(t.kind, t.n), m)
 				if dx != nil {
 					d = dx.DDSketch
-					if derr == nil && (dx.GetCount() != e.exact.GetCount() || dx.GetSum() != e.exact.GetSum()) {
-						r.oracleFail("roundtrip-stats", "exact count/sum differ after decode")
+					if derr == nil && (dx.GetCount() != e.exact.GetCount() || !(dx.GetSum() == e.exact.GetSum() || (math.IsNaN(dx.GetSum()) && math.IsNaN(e.exact.GetSum())))) {
+						r.oracleFail("roundtrip-stats", fmt.Sprintf("exact count/sum differ after decode: count %v -> %v, sum %v -> %v", e.exact.GetCount(), dx.GetCount(), e.exact.GetSum(), dx.GetSum()))
 					}
 					mn1, _ := dx.GetMinValue()
 					mn2, _ := e.exact.GetMinValue()
